@@ -1,5 +1,8 @@
 """C10 - EVM messages reach the signer only from the core contract and when final."""
 import os
+import re
+
+import vlib
 
 OVERLAY = {
     "node/pkg/ethereum/zz_verif_evm_test.go": "ethereum/evm_verif_test.go",
@@ -11,8 +14,35 @@ def classify(clause, case, verdict):
     return clause
 
 
+def config_fact(ctx):
+    """"(zero on chains read at finalized height)": Run reads finalized blocks iff chainID == ChainIDEthereum (modelled, tied);
+    whether that watcher is constructed with waitForConfirmations=false is a fact of cmd/guardiand/node.go, re-read here."""
+    path = os.path.join(vlib.REPO, "node/cmd/guardiand/node.go")
+    try:
+        src = vlib.read(path)
+    except OSError:
+        ctx.notes.append("config fact: node.go not readable, finalized-chain confirmation mode not re-checked")
+        return
+    calls = re.findall(r"ethereum\.NewEthWatcher\(([^\n]*?)\)\.Run", src)
+    facts = []
+    for c in calls:
+        args = [a.strip() for a in c.split(",")]
+        if len(args) < 11:
+            continue
+        facts.append((args[4], args[-1]))
+        if args[4] == "vaa.ChainIDEthereum" and args[-1] != "false":
+            ctx.spec_violations.append({
+                "key": "finalized-chain-waits-confirmations",
+                "what": "node.go constructs the Ethereum watcher (the chain read at finalized height) with waitForConfirmations=%s" % args[-1],
+                "replay": {"family": "evm", "case_id": "node.go", "clause": "finalized-chain-waits-confirmations", "case": [c[:400]]}})
+    ctx.cov["config_facts"] = ["NewEthWatcher(chain=%s, waitForConfirmations=%s)" % f for f in facts]
+    if not facts:
+        ctx.notes.append("config fact: no NewEthWatcher call recognised in node.go, finalized-chain confirmation mode not re-checked")
+
+
 def run(ctx):
     ctx.prove(families=("evm",))
+    config_fact(ctx)
     ov = ctx.overlay(OVERLAY, p2p_stub=True)
     if ov is None:
         return
